@@ -46,4 +46,87 @@ theorem c17_gen_isValid_eq (g : Gen.C17.validPeers) (p : Ident) :
       cases h : (setOf e.2).contains p.getID
       · simpa [h] using ih
       · simp [h]
+
+/-! ### `validPeers.set` -/
+
+/-- the translated table read entry by entry (an earlier entry hides a later one with the same set id, as `lookup` and
+`Map.find` both see it) -/
+def rawOf (m : Gen.Rt.Map SetId (Gen.Rt.Map PeerId Unit)) : VP := m.map fun l => l.map fun e => (e.1, setOf e.2)
+
+private theorem fold_put (peers : List Ident) (acc : List (PeerId × Unit)) :
+    List.foldl (fun (m : Gen.Rt.Map PeerId Unit) (p : Ident) => Gen.Rt.Map.put m p.getID ()) (some acc) peers =
+      some ((peers.reverse.map fun p => (p.getID, ())) ++ acc) := by
+  induction peers generalizing acc with
+  | nil => rfl
+  | cons p rest ih =>
+    have step : Gen.Rt.Map.put (some acc) p.getID () = some ((p.getID, ()) :: acc) := rfl
+    simp only [List.foldl_cons, step, ih, List.reverse_cons, List.map_append, List.map_cons, List.map_nil,
+      List.append_assoc, List.singleton_append]
+
+private theorem lookup_map_snd (l : List (SetId × Gen.Rt.Map PeerId Unit)) (j : SetId) :
+    (l.map fun e => (e.1, setOf e.2)).lookup j = (l.lookup j).map setOf := by
+  induction l with
+  | nil => rfl
+  | cons e rest ih =>
+    obtain ⟨k, v⟩ := e
+    by_cases h : j == k <;> simp [List.lookup, h, ih]
+
+private theorem lookup_filter_ne (l : List (SetId × List PeerId)) (id j : SetId) (h : (j == id) = false) :
+    (l.filter fun e => e.1 != id).lookup j = l.lookup j := by
+  induction l with
+  | nil => rfl
+  | cons e rest ih =>
+    obtain ⟨k, v⟩ := e
+    by_cases hk : (k != id) = true
+    · simp only [List.filter_cons, hk, if_true, List.lookup]
+      cases hjk : (j == k) <;> simp [ih]
+    · have hk' : (k == id) = true := by simpa using hk
+      have hjk : (j == k) = false := by
+        cases hjk : (j == k)
+        · rfl
+        · have := beq_iff_eq.mp hjk; have := beq_iff_eq.mp hk'; subst_vars; simp at h
+      simp [List.filter_cons, hk, List.lookup, hjk, ih]
+
+/-- **`validPeers.set` as translated is the model's `VP.set`, as an update of a map from set ids to sets of peer
+ids**: the call never panics (a nil table is made first); afterwards the set id finds a peer set whose members are
+exactly the ids **of the keys** of the given identities (`GetID`, not the wire-supplied field), and every other set id
+finds what it found before — entry by entry what `lookup` finds in `VP.set (rawOf …) id peers`. -/
+theorem c17_gen_set_eq (g : Gen.C17.validPeers) (id : SetId) (peers : List Ident) :
+    ∃ g', Gen.C17.validPeers_set g id peers = some g' ∧
+      (∀ j, (j == id) = false →
+        ((rawOf g'.peers).getD []).lookup j = ((VP.set (rawOf g.peers) id peers).getD []).lookup j) ∧
+      ∃ s, ((rawOf g'.peers).getD []).lookup id = some s ∧
+        ((VP.set (rawOf g.peers) id peers).getD []).lookup id = some (peers.map Ident.getID) ∧
+        ∀ x, s.contains x = (peers.map Ident.getID).contains x := by
+  obtain ⟨tbl⟩ := g
+  have hfold := fold_put peers []
+  simp only [List.append_nil] at hfold
+  -- the table the entry is written into: the old one, or a fresh empty one
+  have key : ∀ l : List (SetId × Gen.Rt.Map PeerId Unit), (tbl = some l ∨ (tbl = none ∧ l = [])) →
+      ∃ g', Gen.C17.validPeers_set ⟨tbl⟩ id peers = some g' ∧
+        g'.peers = some ((id, some (peers.reverse.map fun p => (p.getID, ()))) :: l) := by
+    intro l hl
+    rcases hl with h | ⟨h, hl⟩
+    · subst h
+      exact ⟨_, by simp [Gen.C17.validPeers_set, Gen.Rt.Map.isNil, Gen.Rt.Map.insert?, hfold], rfl⟩
+    · subst h; subst hl
+      exact ⟨_, by simp [Gen.C17.validPeers_set, Gen.Rt.Map.isNil, Gen.Rt.Map.insert?, hfold], rfl⟩
+  obtain ⟨l, hl⟩ : ∃ l, tbl = some l ∨ (tbl = none ∧ l = []) := by
+    cases tbl with
+    | none => exact ⟨[], Or.inr ⟨rfl, rfl⟩⟩
+    | some l => exact ⟨l, Or.inl rfl⟩
+  obtain ⟨g', hg, hp⟩ := key l hl
+  have hraw : (rawOf tbl).getD [] = l.map fun e => (e.1, setOf e.2) := by
+    rcases hl with h | ⟨h, hl⟩ <;> subst_vars <;> simp [rawOf]
+  refine ⟨g', hg, ?_, ?_⟩
+  · intro j hj
+    have hraw' : (Option.map (fun l => List.map (fun e => (e.fst, setOf e.snd)) l) tbl).getD [] =
+        l.map fun e => (e.1, setOf e.2) := hraw
+    simp only [hp, rawOf, Option.map_some, Option.getD_some, List.map_cons, VP.set, hraw', List.lookup, hj]
+    rw [lookup_filter_ne _ _ _ hj]
+  · refine ⟨setOf (some (peers.reverse.map fun p => (p.getID, ()))), ?_, ?_, ?_⟩
+    · simp [hp, rawOf, List.lookup]
+    · simp [VP.set, List.lookup]
+    · intro x
+      simp [setOf, List.map_reverse, Function.comp]
 end C17
